@@ -26,7 +26,8 @@ Export ListNotations.
 
 Record c04case := {
   cid : N;
-  corder : list mtype;                                   (* path-type-order *)
+  corder : list mtype;   (* path-type order the code used: Global.MatchOrder as parsed by the real
+                            configuration code from the path-type-order key in the converter cases *)
   cfed : list (string * string * mtype * N * string);   (* host, path, type, HostPath.order, target: addTarget calls in order *)
   cfiles : list (meth * bool * list (string * string)); (* the rendered files *)
   cstrict : bool  (* false for the malformed stream (paths with "//", '#', '?', no leading
@@ -66,8 +67,10 @@ Fixpoint files_eqb (a b : list matchfile) : bool :=
 Definition model_agrees (c : c04case) : bool :=
   files_eqb (rebuild_current (corder c) (entries_of c)) (files_of c).
 
-(* the guard of theorem B; the generator stays inside it *)
-Definition in_guard (c : c04case) : bool := forallb wf_fed (feds_of c).
+(* the guard of theorem B: rules inside the guard (the generator stays inside it) and a
+   path-type order the theorems quantify over (`permitted`: each type once) — a mismatch
+   when the real configuration code hands over anything else *)
+Definition in_guard (c : c04case) : bool := forallb wf_fed (feds_of c) && permittedb (corder c).
 
 Definition case_ok (c : c04case) : bool :=
   if cstrict c then in_guard c && model_agrees c && layout_ok (files_of c) (rules_of c)
